@@ -577,18 +577,20 @@ func genGroup3() {
 		[]byte("[\x80\x81\x82\x83] "), []byte(" "), []byte("Re"), []byte("R\xe2\x84\xaa:"), []byte("[\xc2\xe0\xbf\xfd"),
 		[]byte("[\xc3\xa0\xbf\xfd\x80]"), []byte("\xa4\xa4"), []byte("x"), []byte("[\xef\xbf\xbd\xef\xbf\xbd\xef\xbf\xbd\xef\xbf\xbd]"),
 	}
-	nTok := pick(3, 3)
-	var rec func(pre []byte, depth int)
-	rec = func(pre []byte, depth int) {
-		do("subjectex "+title(pre), true)
-		if depth == nTok {
-			return
+	// all sequences of up to 3 tokens, shortest first
+	level := [][]byte{nil}
+	for depth := 0; depth <= pick(3, 3); depth++ {
+		var next [][]byte
+		for _, pre := range level {
+			do("subjectex "+title(pre), true)
+			if depth < 3 {
+				for _, t := range toks {
+					next = append(next, append(cp(pre), t...))
+				}
+			}
 		}
-		for _, t := range toks {
-			rec(append(cp(pre), t...), depth+1)
-		}
+		level = next
 	}
-	rec(nil, 0)
 	for i := 0; i < pick(3000, 60000); i++ {
 		var s []byte
 		for k, n := 0, r.Intn(6); k < n; k++ {
